@@ -554,8 +554,9 @@ def gen_services(rng: random.Random) -> List[dict]:
     n = rng.choice([1, 1, 2, 2, 3])
     out = []
     custom = rng.random() < 0.3
-    httl = rng.choice([120, 60, 240]) if custom else 120
-    ottl = rng.choice([4500, 1200, 100]) if custom else 4500
+    # (also TTLs that are not multiples of four: a quarter of them is not a whole number of seconds)
+    httl = rng.choice([120, 60, 240, 30, 75, 10, 150]) if custom else 120
+    ottl = rng.choice([4500, 1200, 100, 30, 150, 75]) if custom else 4500
     used_names = set()
     host_addrs: Dict[int, str] = {}
     for k in range(n):
